@@ -255,7 +255,7 @@ class Tracker:
                 return [pack(pl, en, uk) for pl, en, uk in states]
             if op == "inl_ret":
                 return [st]
-            a = tr.qast(n.func, n.env, n.ast)
+            a = tr.recnorm(tr.qast(n.func, n.env, n.ast), env)
             if op == "ret_inl" and n.env is not None:
                 if n.ast.value is None:
                     return [st]
@@ -335,6 +335,10 @@ class Tracker:
                 for t in targets:
                     if isinstance(t, (ast.Tuple, ast.List)) and isinstance(val, (ast.Tuple, ast.List)) and len(t.elts) == len(val.elts):
                         pairs += list(zip(t.elts, val.elts))
+                    elif isinstance(t, (ast.Tuple, ast.List)) and isinstance(val, ast.Name) and (env.get(val.id) or "").startswith("rec:") \
+                            and len(env[val.id][4:].split(",")) == len(t.elts) and not any(isinstance(x, ast.Starred) for x in t.elts):
+                        # unpacking a pair / record built earlier (possibly by a helper): component by component
+                        pairs += [(x, ast.Name(id=f"{val.id}.{fld}", ctx=ast.Load())) for x, fld in zip(t.elts, env[val.id][4:].split(","))]
                     else:
                         pairs.append((t, val))
                 states = [(places, env, unk)]
@@ -413,7 +417,44 @@ class Tracker:
                 return True
         return False
 
+    @staticmethod
+    def is_flag(v: ast.AST) -> bool:
+        if isinstance(v, ast.Constant) and isinstance(v.value, bool):
+            return True
+        if isinstance(v, ast.UnaryOp) and isinstance(v.op, ast.Not):
+            return True
+        if isinstance(v, ast.Compare):
+            return True
+        if isinstance(v, ast.BoolOp):
+            return all(Tracker.is_flag(x) for x in v.values)
+        if isinstance(v, ast.Call) and isinstance(v.func, ast.Name) and v.func.id in ("bool", "any", "all", "len", "isinstance"):
+            return True
+        if isinstance(v, ast.Call) and isinstance(v.func, ast.Attribute) and v.func.attr in ("done", "cancelled", "issubset", "issuperset", "isdisjoint"):
+            return True
+        return False
+
     def truth(self, e: ast.AST, places: FrozenSet[str], env: Dict[str, str]) -> Optional[bool]:
+        if isinstance(e, ast.Name) and env.get(e.id) in ("b:1", "b:0"):
+            return env[e.id] == "b:1"
+        if isinstance(e, ast.Constant) and isinstance(e.value, bool):
+            return e.value
+        if isinstance(e, ast.Call) and isinstance(e.func, ast.Name) and e.func.id == "bool" and len(e.args) == 1:
+            return self.truth(e.args[0], places, env)
+        if isinstance(e, ast.Call) and isinstance(e.func, ast.Attribute) and e.func.attr in ("issubset", "issuperset") and len(e.args) == 1:
+            sub, sup = (e.func.value, e.args[0]) if e.func.attr == "issubset" else (e.args[0], e.func.value)
+            if self.member(sub, places, env) is True and self.member(sup, places, env) is False:
+                return False  # the tracked task is in the one but not in the other
+            return None
+        if isinstance(e, ast.Compare) and len(e.ops) == 1 and isinstance(e.ops[0], (ast.LtE, ast.GtE, ast.Lt, ast.Gt, ast.Eq)) \
+                and self.coll(e.left, env) is not None and self.coll(e.comparators[0], env) is not None:
+            # set comparison A <= B / A >= B / A == B
+            a_, b_ = e.left, e.comparators[0]
+            ma, mb = self.member(a_, places, env), self.member(b_, places, env)
+            if isinstance(e.ops[0], (ast.LtE, ast.Lt, ast.Eq)) and ma is True and mb is False:
+                return False
+            if isinstance(e.ops[0], (ast.GtE, ast.Gt, ast.Eq)) and mb is True and ma is False:
+                return False
+            return None
         if isinstance(e, ast.UnaryOp) and isinstance(e.op, ast.Not):
             v = self.truth(e.operand, places, env)
             return None if v is None else not v
@@ -454,8 +495,69 @@ class Tracker:
             return False if all(v is False for v in vals) else None
         return None
 
+    def record_parts(self, n: Node, v: ast.AST):
+        """[(field, value expression)] when v builds a tuple / NamedTuple / dataclass of the package from plain parts"""
+        if isinstance(v, (ast.Tuple, ast.List)) and v.elts and not any(isinstance(x, ast.Starred) for x in v.elts):
+            return [(str(i), x) for i, x in enumerate(v.elts)]
+        if isinstance(v, ast.Call):
+            fields = self.ctx.vals.record_fields(n.func, v)
+            if fields is None or any(isinstance(x, ast.Starred) for x in v.args) or any(k.arg is None or k.arg not in fields for k in v.keywords) or len(v.args) > len(fields):
+                return None
+            got = dict(zip(fields, v.args))
+            got.update({k.arg: k.value for k in v.keywords})
+            if set(got) != set(fields):
+                return None
+            return [(fld, got[fld]) for fld in fields]
+        return None
+
+    def recnorm(self, e: Optional[ast.AST], env: Dict[str, str]) -> Optional[ast.AST]:
+        """`rec.field` / `rec[i]` of a local known to hold a record (see assign) read as the pseudo-local `rec.field`"""
+        if e is None or not any(v.startswith("rec:") for v in env.values()):
+            return e
+        tr = self
+
+        class R(ast.NodeTransformer):
+            def visit_Attribute(self, x):
+                if isinstance(x.value, ast.Name) and (env.get(x.value.id) or "").startswith("rec:") and x.attr in env[x.value.id][4:].split(","):
+                    return ast.copy_location(ast.Name(id=f"{x.value.id}.{x.attr}", ctx=x.ctx), x)
+                return self.generic_visit(x)
+
+            def visit_Subscript(self, x):
+                if isinstance(x.value, ast.Name) and (env.get(x.value.id) or "").startswith("rec:") and isinstance(x.slice, ast.Constant) and isinstance(x.slice.value, int):
+                    flds = env[x.value.id][4:].split(",")
+                    if 0 <= x.slice.value < len(flds):
+                        return ast.copy_location(ast.Name(id=f"{x.value.id}.{flds[x.slice.value]}", ctx=x.ctx), x)
+                return self.generic_visit(x)
+
+        import copy
+        if not any(isinstance(x, (ast.Attribute, ast.Subscript)) and isinstance(x.value, ast.Name) and (env.get(x.value.id) or "").startswith("rec:") for x in ast.walk(e)):
+            return e
+        return R().visit(copy.deepcopy(e))
+
     def assign(self, n: Node, t: ast.AST, v: ast.AST, places: Set[str], env: Dict[str, str], unk: bool):
         """returns list of (places, env, unk)"""
+        if isinstance(t, ast.Name):
+            parts = self.record_parts(n, v)
+            src_rec = isinstance(v, ast.Name) and v.id != t.id and (env.get(v.id) or "").startswith("rec:")
+            if parts is not None and len(parts) >= 2 or src_rec:
+                # a pair / record: each component is followed as the pseudo-local `<name>.<field>`
+                if src_rec:
+                    parts = [(fld, ast.Name(id=f"{v.id}.{fld}", ctx=ast.Load())) for fld in env[v.id][4:].split(",")]
+                for p in list(places):
+                    if p.endswith(":" + t.id) or p.rpartition(":")[2].startswith(t.id + "."):
+                        places.discard(p)
+                for k_ in [k_ for k_ in env if k_ == t.id or k_.startswith(t.id + ".")]:
+                    env.pop(k_)
+                states = [(places, env, unk)]
+                for fld, val in parts:
+                    self.extra_locals.add(f"{t.id}.{fld}")
+                    nxt = []
+                    for pl, en, uk in states:
+                        nxt += self.assign(n, ast.Name(id=f"{t.id}.{fld}", ctx=ast.Store()), val, set(pl), dict(en), uk)
+                    states = nxt
+                for pl, en, uk in states:
+                    en[t.id] = "rec:" + ",".join(fld for fld, _v in parts)
+                return states
         # value is a pop() from a tracked collection
         if isinstance(v, ast.Call) and isinstance(v.func, ast.Attribute) and v.func.attr == "pop" and not v.args:
             outs = self.call(n, v, set(places), dict(env), unk, t)
@@ -536,6 +638,13 @@ class Tracker:
                     if p.endswith(":" + name):
                         places.discard(p)
                 env.pop(name, None)
+            if self.is_flag(v):
+                # a truth value computed from the collections (sizes, comparisons, done() tests): it cannot hold the task; what is
+                # known about it for the tracked task is remembered, otherwise both outcomes are followed where it is tested
+                tv = self.truth(v, frozenset(places), env)
+                if tv is not None:
+                    env[name] = "b:1" if tv else "b:0"
+                return [(places, env, unk)]
             if self.touches(v, env):
                 unk = True
                 self.unknown.append((n, f"value `{ast.unparse(v)[:50]}` derived from the spawner table not understood"))
